@@ -93,11 +93,11 @@ def prepare(workroot, need_options=False):
     gen.gen_consts(REPO, gdir)
 
 
-def expand_macros(expr, workroot, extra_headers=()):
+def expand_macros(expr, workroot, extra_headers=(), defines=()):
     """Expand the offset/ghost macros of contracts/common.h inside a loop-contract string."""
     import subprocess
     src = '#include "common.h"\n' + ''.join('#include "%s"\n' % h for h in extra_headers) + 'EXPANSION_MARKER\n' + expr + '\n'
-    p = subprocess.run(['cpp', '-P', '-I', os.path.join(VERIF, 'contracts'), '-I', os.path.join(VERIF, 'contracts', 'shared'), '-I', os.path.join(workroot, 'gen'), '-'],
+    p = subprocess.run(['cpp', '-P'] + ['-D' + d for d in defines] + ['-I', os.path.join(VERIF, 'contracts'), '-I', os.path.join(VERIF, 'contracts', 'shared'), '-I', os.path.join(workroot, 'gen'), '-'],
                        input=src, stdout=subprocess.PIPE, stderr=subprocess.PIPE, text=True)
     if p.returncode != 0:
         raise prover.Undecided('macro expansion failed: ' + p.stderr[-500:])
@@ -106,7 +106,7 @@ def expand_macros(expr, workroot, extra_headers=()):
 
 
 def write_replay(pid, proof, res, fail, note):
-    d = os.path.join(VERIF, 'replay', pid)
+    d = os.path.join(os.environ.get('VERIF_REPLAY_DIR') or os.path.join(VERIF, 'replay'), pid)
     os.makedirs(d, exist_ok=True)
     name = re.sub(r'[^\w.]+', '_', '%s.%s' % (proof.name, fail['obligation']))
     path = os.path.join(d, name + '.json')
@@ -137,7 +137,7 @@ def main():
     mod = load_proofs(pid)
     os.makedirs('/var/tmp', exist_ok=True)
     workroot = tempfile.mkdtemp(prefix='unc-verif.%s.' % pid, dir='/var/tmp')
-    evidence_path = os.path.join(VERIF, 'evidence', pid + '.json')
+    evidence_path = os.path.join(os.environ.get('VERIF_EVIDENCE_DIR') or os.path.join(VERIF, 'evidence'), pid + '.json')
     undecided, violations, known_hits = [], [], []
     results = []
     try:
@@ -163,7 +163,7 @@ def main():
             for l in p.loops:
                 for k in ('inv', 'assigns', 'decreases'):
                     if l.get(k):
-                        l[k] = expand_macros(l[k], workroot, getattr(p, 'macro_headers', ()) or getattr(mod, 'MACRO_HEADERS', ()))
+                        l[k] = expand_macros(l[k], workroot, getattr(p, 'macro_headers', ()) or getattr(mod, 'MACRO_HEADERS', ()), p.defines)
         known, fixed = load_known()
         known = [k for k in known if k['property'] == pid]
 
